@@ -3,6 +3,7 @@
 package main
 
 import (
+	"bytes"
 	"flag"
 	"math/rand"
 
@@ -190,12 +191,33 @@ func main() {
 	for i, c := range cases {
 		e := ev.M{"ev": c.kind, "id": i, "alg": int(c.alg), "key": ev.Ints(c.key[:]), "count": ev.BE32(c.count),
 			"bearer": int(c.bearer), "dir": int(c.dir), "in": ev.Ints(c.msg)}
+		// every second message is handed over as the front part of a larger buffer (a piece of a received PDU, a reused buffer): what lies
+		// behind the message in memory is no argument of the algorithm, and it must still be there afterwards
+		inBuf := func(m []byte) ([]byte, []byte) {
+			if i%2 == 0 {
+				return append([]byte{}, m...), nil
+			}
+			big := make([]byte, len(m)+40)
+			for j := range big {
+				big[j] = byte(0xa5 + j)
+			}
+			copy(big, m)
+			return big[:len(m)], big
+		}
+		tailOK := func(big []byte, n int) bool {
+			for j := n; j < len(big); j++ {
+				if big[j] != byte(0xa5+j) {
+					return false
+				}
+			}
+			return true
+		}
 		if c.kind == "Enc" {
-			buf := append([]byte{}, c.msg...)
+			buf, big := inBuf(c.msg)
 			var err error
 			p := ev.Catch(func() { err = security.NASEncrypt(c.alg, c.key, c.count, c.bearer, c.dir, buf) })
 			e["out"] = ev.Ints(buf)
-			e["err"] = err != nil || p != ""
+			e["err"] = err != nil || p != "" || !tailOK(big, len(c.msg))
 			buf2 := append([]byte{}, buf...)
 			p2 := ev.Catch(func() { err = security.NASEncrypt(c.alg, c.key, c.count, c.bearer, c.dir, buf2) })
 			e["out2"] = ev.Ints(buf2)
@@ -203,10 +225,11 @@ func main() {
 		} else {
 			var mac []byte
 			var err error
-			p := ev.Catch(func() { mac, err = security.NASMacCalculate(c.alg, c.key, c.count, c.bearer, c.dir, c.msg) })
+			msg, big := inBuf(c.msg)
+			p := ev.Catch(func() { mac, err = security.NASMacCalculate(c.alg, c.key, c.count, c.bearer, c.dir, msg) })
 			ev.Hold("MAC returned by NASMacCalculate", mac)
 			e["out"] = ev.Ints(mac)
-			e["err"] = err != nil || p != ""
+			e["err"] = err != nil || p != "" || !tailOK(big, len(c.msg)) || !bytes.Equal(msg, c.msg)
 		}
 		w.Emit(e)
 	}
